@@ -85,6 +85,36 @@ def _mutated(idx, cls, attr):
     return sites
 
 
+def _escapes(idx, cls, attr):
+    """does <cls>.<attr> leave the class as an object (bound to a name, passed to a call, returned, stored)?  Then an alias could
+    mutate it and the 'never mutated' argument does not hold.  Reads through subscript / .get / in / len / iteration do not escape."""
+    sites = []
+    for fi in idx.all_funcs():
+        parents = {}
+        for p_ in ast.walk(fi.node):
+            for ch in ast.iter_child_nodes(p_):
+                parents[id(ch)] = p_
+        for n in walk_no_nested(fi.node):
+            if not (isinstance(n, ast.Attribute) and n.attr == attr and isinstance(n.ctx, ast.Load)):
+                continue
+            d = dotted(n) or ""
+            base = d.split(".")[0]
+            if not (base in (cls, "cls") or (base == "self" and fi.cls and (fi.cls == cls or cls in [c.name for c in idx.mro(fi.cls)]))):
+                continue
+            par = parents.get(id(n))
+            harmless = (
+                (isinstance(par, ast.Subscript) and par.value is n) or
+                (isinstance(par, ast.Attribute) and par.value is n and par.attr in ("get", "keys", "values", "items", "index", "count", "copy", "format")) or
+                (isinstance(par, ast.Compare)) or
+                (isinstance(par, (ast.For, ast.comprehension)) and par.iter is n) or
+                (isinstance(par, ast.Call) and call_name(par) in ("len", "sorted", "list", "tuple", "set", "dict", "enumerate", "any", "all", "sum", "max", "min", "join", "frozenset") and n in par.args) or
+                (isinstance(par, ast.Starred)) or (isinstance(par, ast.BinOp)) or (isinstance(par, ast.FormattedValue))
+            )
+            if not harmless:
+                sites.append((fi, n))
+    return sites
+
+
 def r1(idx, rep):
     n = 0
     for cname, cis in sorted(idx.classes.items()):
@@ -96,7 +126,8 @@ def r1(idx, rep):
                     continue
                 n += 1
                 key = f"{ci.file}::{cname} class-level container"
-                if (cname, attr) in CONSTANT_TABLES or (isinstance(v, (ast.List, ast.Set)) and not _mutated(idx, cname, attr)):
+                # a table that nothing mutates and that never leaves the class as an object is a constant, whatever its container type
+                if (cname, attr) in CONSTANT_TABLES or (isinstance(v, (ast.List, ast.Set, ast.Dict)) and not _mutated(idx, cname, attr) and not _escapes(idx, cname, attr)):
                     sites = _mutated(idx, cname, attr)
                     rep.check(not sites, "R1", key + f" {attr} is constant", f"the table {cname}.{attr} is mutated at {[K.where(f, x) for f, x in sites][:2]}", ci.file)
                     continue
